@@ -146,6 +146,9 @@ pub enum Ev {
     Close,
     P,
     Q,
+    /// wake-driven executor: poll the retained receive only if its waker has fired since it was last polled (a
+    /// receive that is not in progress is started and polled at once)
+    W,
 }
 
 pub struct Case {
@@ -162,26 +165,38 @@ pub fn run_case(c: &Case) -> Vec<String> {
     let connp: *mut Conn = &mut conn;
     let mut retained: Option<BoxFut<'_>> = None;
     let mut outs = vec![];
+    let flag = WakeFlag::new();
     for ev in &c.evs {
         match ev {
-            Ev::Arrive(b) => net.borrow_mut().avail.extend(b.iter().copied()),
-            Ev::Close => net.borrow_mut().closed = true,
+            Ev::Arrive(b) => {
+                let mut n = net.borrow_mut();
+                n.avail.extend(b.iter().copied());
+                n.wake();
+            }
+            Ev::Close => {
+                let mut n = net.borrow_mut();
+                n.closed = true;
+                n.wake();
+            }
             Ev::P => {
                 retained = None; // abandon any retained future first
+                flag.take();
                 // SAFETY: no other future borrowing the connection is alive.
                 let mut f = recv_fut(&c.kind, unsafe { &mut *connp });
-                match poll_once(f.as_mut()) {
+                match poll_flag(f.as_mut(), &flag) {
                     Poll::Ready(s) => outs.push(s),
                     Poll::Pending => outs.push("pend".into()),
                 }
                 drop(f);
             }
-            Ev::Q => {
+            Ev::W if retained.is_some() && !flag.take() => {}
+            Ev::Q | Ev::W => {
                 if retained.is_none() {
                     // SAFETY: as above.
                     retained = Some(recv_fut(&c.kind, unsafe { &mut *connp }));
                 }
-                match poll_once(retained.as_mut().unwrap().as_mut()) {
+                flag.take();
+                match poll_flag(retained.as_mut().unwrap().as_mut(), &flag) {
                     Poll::Ready(s) => {
                         outs.push(s);
                         retained = None;
@@ -214,6 +229,7 @@ pub fn case_line(c: &Case, outs: &[String]) -> String {
             Ev::Close => s.push_str(" C"),
             Ev::P => s.push_str(" P"),
             Ev::Q => s.push_str(" Q"),
+            Ev::W => s.push_str(" W"),
         }
     }
     s.push_str(" =>");
@@ -372,6 +388,11 @@ fn events_for(stream: &[u8], cuts: &[usize], mode: u8, nframes: usize, rng: &mut
         0 => {}
         1 => evs.push(Ev::P),
         2 => evs.push(Ev::Q),
+        4 => {
+            for _ in 0..rng.below(3) {
+                evs.push(Ev::W);
+            }
+        }
         _ => {
             for _ in 0..rng.below(3) {
                 evs.push(if rng.chance(1, 2) { Ev::P } else { Ev::Q });
@@ -387,7 +408,7 @@ fn events_for(stream: &[u8], cuts: &[usize], mode: u8, nframes: usize, rng: &mut
     }
     evs.push(Ev::Close);
     for _ in 0..nframes + 2 {
-        evs.push(if mode == 2 || (mode == 3 && rng.chance(1, 2)) { Ev::Q } else { Ev::P });
+        evs.push(if mode == 4 { Ev::W } else if mode == 2 || (mode == 3 && rng.chance(1, 2)) { Ev::Q } else { Ev::P });
     }
     evs
 }
@@ -422,7 +443,7 @@ pub fn generate(tier: &str, seed: u64, only: Option<&str>) -> Vec<Case> {
                     let stepb = if thorough { 1 } else { 3 };
                     let mut b = a + 1;
                     while b < stream.len() {
-                        let evs = events_for(&stream, &[a, b], 1 + ((a + b) % 2) as u8, frames.len(), &mut rng);
+                        let evs = events_for(&stream, &[a, b], [1u8, 2, 4][(a + b) % 3], frames.len(), &mut rng);
                         cases.push(Case { kind: kind.to_string(), frames: frames.clone(), sizes: vec![], evs });
                         b += stepb;
                     }
@@ -465,7 +486,7 @@ pub fn generate(tier: &str, seed: u64, only: Option<&str>) -> Vec<Case> {
                 } else {
                     (0..rng.range(1, 12)).map(|_| rng.range(1, 400)).collect()
                 };
-                let evs = events_for(&stream, &cuts, if mode == 0 { 1 } else { mode }, frames.len(), &mut rng);
+                let evs = events_for(&stream, &cuts, if mode == 0 { 4 } else { mode }, frames.len(), &mut rng);
                 cases.push(Case { kind: kind.to_string(), frames, sizes, evs });
             }
         }
@@ -485,7 +506,7 @@ pub fn generate(tier: &str, seed: u64, only: Option<&str>) -> Vec<Case> {
             cuts.sort();
             cuts.dedup();
             let sizes = if rng.chance(1, 2) { vec![] } else { vec![rng.range(100, 3000); 40] };
-            let mode = rng.range(1, 3) as u8;
+            let mode = rng.range(1, 4) as u8;
             let evs = events_for(&stream, &cuts, mode, frames.len(), &mut rng);
             cases.push(Case { kind: kind.to_string(), frames, sizes, evs });
         }
